@@ -199,8 +199,8 @@ func c15Run(rc *RunCtx) *Violation {
 				}
 			}
 		}
-		// deliver retag send broadcast tick
-		wt := []int{24, 8, 6, 1, 1}
+		// deliver retag send broadcast tick end
+		wt := []int{24, 8, 6, 1, 1, 1}
 		if len(ls) == 0 {
 			wt[0] = 0
 		}
@@ -214,8 +214,10 @@ func c15Run(rc *RunCtx) *Violation {
 			return Step{K: "send", A: r.Intn(3), B: 2}, true
 		case 3:
 			return Step{K: "broadcast"}, true
-		default:
+		case 4:
 			return Step{K: "tick", A: []int{1, 3}[r.Intn(2)]}, true
+		default:
+			return Step{K: "end", A: r.Intn(3)}, true
 		}
 	}
 	kinds := ""
@@ -265,6 +267,17 @@ func c15Run(rc *RunCtx) *Violation {
 			w.Fault(fmt.Sprintf("retag:%d", st.B%len(variants)))
 			retagged++
 			w.Deliver(y)
+		case "end":
+			p := w.P[st.A%3]
+			r := p.End()
+			if p == a {
+				for _, o := range r.Out {
+					w.Put(0, 1, o, true, -1, r.Seq, "")
+					w.Put(0, 2, o, true, -1, r.Seq, "")
+				}
+			} else {
+				w.Enqueue(p, r)
+			}
 		case "send":
 			p := w.P[st.A%3]
 			r := p.Send(w.GenText(p, st.B, 0))
